@@ -229,8 +229,7 @@ Section Step.
       destruct (jt_offsets tb) as [|o0 rest] eqn:Eo; [discriminate|].
       eapply ok_jump; eauto.
       match goal with |- In (if ?c then _ else _) _ => destruct c eqn:Ec end.
-      + apply nth_In. apply Z.ltb_lt in Ec.
-        assert (0 <= (to_i64 v - jt_min tb) mod 18446744073709551616)%Z by (apply Z.mod_pos_bound; lia). lia.
+      + apply nth_In. apply andb_true_iff in Ec. destruct Ec as [Ec0 Ec1]. apply Z.leb_le in Ec0. apply Z.ltb_lt in Ec1. lia.
       + apply last_In. discriminate.
     - (* UGetGlobal *)
       destruct (N.leb_spec (g + n) (p_gsize p)) as [Hg|Hg]; [|discriminate]. inversion Hflow; subst succs.
